@@ -466,7 +466,9 @@ class CellConversion:
             else:
                 new_cell.fillid = universe
             if new_cell.filltr:
-                new_filltr = compose_transform(trnsf, new_cell.filltr)
+                # the fill transformation places the universe in the element
+                # [0, 0, 0]; the lattice translation is applied afterwards
+                new_filltr = compose_transform(new_cell.filltr, trnsf)
             else:
                 new_filltr = tuple(trnsf)
             # see self.pot_fill(): if TRCL and FILL with a transformation are
